@@ -202,7 +202,7 @@ structure Fixes where
 deriving DecidableEq, Repr
 
 /-- the tree as it is. FLIP the switches of the patches that have been applied to /repo. -/
-def implFixes : Fixes := { awaitAttClone := true, awaitProClone := true, awaitContribClone := true, schedResolveClone := true }  -- applied in /repo: 0823825, 4f5804c
+def implFixes : Fixes := { awaitAttClone := true, awaitProClone := true, awaitContribClone := true, schedResolveClone := true, cacheClone := true }  -- applied in /repo: 0823825, 4f5804c
 
 def allFixes : Fixes := ⟨true, true, true, true, true⟩
 
